@@ -1,6 +1,6 @@
 // CHILD-OF: src/contract.rs
 // ENCODES: AxelarGasService::{__constructor, pay_gas, add_gas, collect_fees, refund, gas_collector}, event::{gas_paid, gas_added, refunded, fee_collected}
-// STUBS: soroban_sdk::token::xc_TokenClient_transfer / xc_TokenClient_balance -> TokenSpec (standard token: sender must authorise unless it is the calling contract, amount >= 0, no overdraft, no overflow; ghost balance of the service)
+// STUBS: soroban_sdk::token::xc_TokenClient_{transfer, balance, allowance, approve, transfer_from, burn} -> TokenSpec (standard token: sender must authorise unless it is the calling contract, amount >= 0, no overdraft, no overflow; ghost balance of the service)
 // C14 (balance equation, events), C06 (collector-only outflows), C07 (spender authorises payments).
 use super::*;
 use soroban_sdk::crypto::ideal_hash;
@@ -46,6 +46,68 @@ fn spec_transfer(env: &Env, contract: &Address, from: &Address, to: &Address, am
         T_AMOUNT = *amount;
     }
 }
+// the rest of the standard token interface, so that a service that moves funds some other way is judged, not left inconclusive
+static mut ALLOW: i128 = 0; // the one allowance of the scenario: whatever (from, spender) pair is asked about
+fn spec_allowance(_env: &Env, _contract: &Address, _from: &Address, _spender: &Address) -> i128 {
+    unsafe { ALLOW }
+}
+fn spec_approve(env: &Env, _contract: &Address, from: &Address, _spender: &Address, amount: &i128, _expiration_ledger: &u32) {
+    unsafe {
+        if *from != env.current_contract_address() {
+            from.require_auth();
+        }
+        if *amount < 0 {
+            model::spec_trap();
+        }
+        ALLOW = *amount;
+    }
+}
+fn spec_transfer_from(env: &Env, contract: &Address, spender: &Address, from: &Address, to: &Address, amount: &i128) {
+    unsafe {
+        // a delegated transfer is authorised by the SPENDER and covered by the allowance; `from` is not asked
+        if *spender != env.current_contract_address() {
+            spender.require_auth();
+        }
+        if *amount < 0 || ALLOW < *amount {
+            model::spec_trap();
+        }
+        ALLOW -= *amount;
+        let fb = if *from == svc() { SVC_BAL } else { OTHER_BAL };
+        if fb < *amount {
+            model::spec_trap();
+        }
+        if *from == svc() {
+            SVC_BAL -= *amount;
+        }
+        if *to == svc() {
+            match SVC_BAL.checked_add(*amount) {
+                Some(x) => SVC_BAL = x,
+                None => model::spec_trap(),
+            }
+        }
+        T_CALLS += 1;
+        T_TOKEN = contract.0;
+        T_FROM = from.0;
+        T_TO = to.0;
+        T_AMOUNT = *amount;
+    }
+}
+fn spec_burn(env: &Env, _contract: &Address, from: &Address, amount: &i128) {
+    unsafe {
+        if *from != env.current_contract_address() {
+            from.require_auth();
+        }
+        let fb = if *from == svc() { SVC_BAL } else { OTHER_BAL };
+        if *amount < 0 || fb < *amount {
+            model::spec_trap();
+        }
+        if *from == svc() {
+            SVC_BAL -= *amount;
+        }
+        T_CALLS += 1;
+        T_TOKEN = 0; // not a transfer: `one_transfer` is false
+    }
+}
 fn spec_balance(_env: &Env, contract: &Address, id: &Address) -> i128 {
     unsafe {
         if *id == svc() {
@@ -62,6 +124,8 @@ fn arm() -> i128 {
         kani::assume(SVC_BAL >= 0);
         OTHER_BAL = kani::any();
         kani::assume(OTHER_BAL >= 0);
+        ALLOW = kani::any();
+        kani::assume(ALLOW >= 0);
         SVC_BAL
     }
 }
@@ -85,6 +149,10 @@ fn setup() -> (Env, Address) {
 #[kani::proof]
 #[kani::stub(soroban_sdk::token::xc_TokenClient_transfer, spec_transfer)]
 #[kani::stub(soroban_sdk::token::xc_TokenClient_balance, spec_balance)]
+#[kani::stub(soroban_sdk::token::xc_TokenClient_allowance, spec_allowance)]
+#[kani::stub(soroban_sdk::token::xc_TokenClient_approve, spec_approve)]
+#[kani::stub(soroban_sdk::token::xc_TokenClient_transfer_from, spec_transfer_from)]
+#[kani::stub(soroban_sdk::token::xc_TokenClient_burn, spec_burn)]
 fn c14_pay_gas() {
     let (env, _collector) = setup();
     let b0 = arm();
@@ -122,6 +190,10 @@ fn c14_pay_gas() {
 #[kani::proof]
 #[kani::stub(soroban_sdk::token::xc_TokenClient_transfer, spec_transfer)]
 #[kani::stub(soroban_sdk::token::xc_TokenClient_balance, spec_balance)]
+#[kani::stub(soroban_sdk::token::xc_TokenClient_allowance, spec_allowance)]
+#[kani::stub(soroban_sdk::token::xc_TokenClient_approve, spec_approve)]
+#[kani::stub(soroban_sdk::token::xc_TokenClient_transfer_from, spec_transfer_from)]
+#[kani::stub(soroban_sdk::token::xc_TokenClient_burn, spec_burn)]
 fn c14_add_gas() {
     let (env, _collector) = setup();
     let b0 = arm();
@@ -153,6 +225,10 @@ fn c14_add_gas() {
 #[kani::proof]
 #[kani::stub(soroban_sdk::token::xc_TokenClient_transfer, spec_transfer)]
 #[kani::stub(soroban_sdk::token::xc_TokenClient_balance, spec_balance)]
+#[kani::stub(soroban_sdk::token::xc_TokenClient_allowance, spec_allowance)]
+#[kani::stub(soroban_sdk::token::xc_TokenClient_approve, spec_approve)]
+#[kani::stub(soroban_sdk::token::xc_TokenClient_transfer_from, spec_transfer_from)]
+#[kani::stub(soroban_sdk::token::xc_TokenClient_burn, spec_burn)]
 fn c14_collect_fees() {
     let (env, collector) = setup();
     let b0 = arm();
@@ -181,6 +257,10 @@ fn c14_collect_fees() {
 #[kani::proof]
 #[kani::stub(soroban_sdk::token::xc_TokenClient_transfer, spec_transfer)]
 #[kani::stub(soroban_sdk::token::xc_TokenClient_balance, spec_balance)]
+#[kani::stub(soroban_sdk::token::xc_TokenClient_allowance, spec_allowance)]
+#[kani::stub(soroban_sdk::token::xc_TokenClient_approve, spec_approve)]
+#[kani::stub(soroban_sdk::token::xc_TokenClient_transfer_from, spec_transfer_from)]
+#[kani::stub(soroban_sdk::token::xc_TokenClient_burn, spec_burn)]
 fn c14_refund() {
     let (env, collector) = setup();
     let b0 = arm();
